@@ -23,6 +23,8 @@ VIEW = 'norm'
 INST = 'v1::Instance'; DV = 'v1::DecisionVariable'; BOUND = 'v1::Bound'
 # hands on the same sequence: vec.into_iter() / vec.iter() / &vec
 SEQ_TRANSPARENT = re.compile(r'::(into_iter|iter|as_ref|deref|as_slice|by_ref)(::<.*>)?$')
+# .. or the same sequence with its positions attached
+RANGE_TRANSPARENT = re.compile(r'::(into_iter|iter|as_ref|deref|as_slice|by_ref|enumerate)(::<.*>)?$')
 
 
 # ---------------------------------------------------------------------------------------------------
@@ -169,12 +171,39 @@ def protects(body, test, targets, need_err=True, implied_by=()):
     return True
 
 
-def bool_tests(body, local, want_true, what):
-    """`if c`, `if !c`, `ensure!(c)`, `c && d`, `c || d`: every switch the bool flows into (through copies / Not)"""
+def bool_flow_x(body, local, want_true):
+    """templates.bool_flow (copies, `!`, anyhow's `not`), and also through `a & b` when the value has to be true and
+    through `a | b` when it has to be false (the result has the required value only if this operand has it)"""
+    out = []; work = [(local, False)]; seen = set()
+    while work:
+        l, neg = work.pop()
+        if (l, neg) in seen: continue
+        seen.add((l, neg))
+        for kind, bi, x in body.uses.get(l, ()):
+            if kind == 'switch': out.append((bi, neg))
+            elif kind == 'stmt':
+                rv = x['rv']
+                if x['dst']['p']: continue
+                if rv['k'] == 'use': work.append((x['dst']['l'], neg))
+                elif rv['k'] == 'un' and rv['op'] == 'Not': work.append((x['dst']['l'], not neg))
+                elif rv['k'] == 'bin' and body.locals[x['dst']['l']] == 'bool':
+                    need = want_true != neg                 # the value `l` must have on the pass side
+                    if (rv['op'] == 'BitAnd' and need) or (rv['op'] == 'BitOr' and not need): work.append((x['dst']['l'], neg))
+            elif kind == 'call':
+                if T.NOT_CALL.search(x.name): work.append((x.dst['l'], not neg))
+    return out
+
+
+def bool_tests(body, local, want_true, what, rejects_nan=None):
+    """`if c`, `if !c`, `ensure!(c)`, `c && d`, `c || d`, `c & d`: every switch the bool flows into.
+    rejects_nan: does a NaN operand end on the fail side?  (`x.is_finite()` / `w >= 0.0` required true: yes — every
+    comparison with NaN is false; `x.is_infinite()` / `w < 0.0` required false: no, NaN slips through)"""
     out = []
-    for sb, neg in T.bool_flow(body, local):
+    for sb, neg in bool_flow_x(body, local, want_true):
         tt, ft = T.switch_sides(body, sb, neg)
-        out.append(Test(sb, [tt] if want_true else [ft], [ft] if want_true else [tt], what))
+        t = Test(sb, [tt] if want_true else [ft], [ft] if want_true else [tt], what)
+        t.rejects_nan = rejects_nan
+        out.append(t)
     return out
 
 
@@ -259,8 +288,18 @@ def unwrap_operand(body, op, depth=24):
                         op = {'k': 'copy', 'pl': {'l': a['pl']['l'], 'p': [{'dc': W}, {'f': '0', 'of': '?::' + W}] + P[2:]}}; continue
                 return op
             pay = [d[2]['rv']['ops'][0] for d in defs if d[0] == 'stmt' and d[2]['rv']['k'] == 'agg' and d[2]['rv']['adt'].endswith('::' + V) and len(d[2]['rv']['ops']) == 1]
-            if len(pay) == 1 and pay[0]['k'] in ('copy', 'move'):
+            # .. or one definition by an adaptor that hands the payload on (`opt.with_context(..)`, `ok_or`, `as_ref`, `copied`):
+            # the payload of its receiver
+            thru = [d[2] for d in defs if d[0] == 'call' and T.ERR_ADAPTORS.search(d[2]['r'] or d[2]['f']) and d[2]['args'] and _plain(d[2]['args'][0])]
+            other = [d for d in defs if not ((d[0] == 'stmt' and d[2]['rv']['k'] == 'agg') or (d[0] == 'call' and T.FROM_RESIDUAL.search(d[2]['r'] or d[2]['f'])))
+                     and not (d[0] == 'call' and d[2] in thru)]
+            if len(pay) == 1 and not thru and pay[0]['k'] in ('copy', 'move') and not other:
                 op = {'k': 'copy', 'pl': {'l': pay[0]['pl']['l'], 'p': list(pay[0]['pl']['p']) + P[2:]}}; continue
+            if len(thru) == 1 and not pay and not other and V in ('Ok', 'Some'):
+                al = thru[0]['args'][0]['pl']['l']; ty = body.locals[al].lstrip('&')
+                W = 'Ok' if ty.startswith('std::result::Result') else ('Some' if ty.startswith('std::option::Option') else None)
+                if W:
+                    op = {'k': 'copy', 'pl': {'l': al, 'p': [{'dc': W}, {'f': '0', 'of': '?::' + W}] + P[2:]}}; continue
         return op
     return op
 
@@ -319,7 +358,7 @@ def xexpr(body, op, depth=18):
 
 def range_sig(body, lo):
     """what a loop counts over: ('0_usize', root local of the upper end) for `for i in 0..n`, else None"""
-    r = root_of(body, lo[0].args[0], SEQ_TRANSPARENT)[0]
+    r = root_of(body, lo[0].args[0], RANGE_TRANSPARENT)[0]
     a = agg_def(body, r, 'ops::Range') if r is not None else None
     if a is None: return None
     ops = a[1]['rv']['ops']
@@ -370,6 +409,19 @@ def canon(body, e, floops, depth=60):
     return str(e)[:40]
 
 
+def f64_compares(body, ops):
+    """comparisons of two f64 values, however spelled: `a < b` (MIR BinOp), `a.lt(&b)` / `a.eq(&b)` (PartialOrd / PartialEq
+    method calls), `a.is_zero()` (num::Zero: `a == 0.0`).  Yields (bb, pseudo statement with rv.op, rv.ops, dst)"""
+    for bi, st in float_cmp_sites(body, ops): yield bi, st
+    names = {'lt': 'Lt', 'le': 'Le', 'gt': 'Gt', 'ge': 'Ge', 'eq': 'Eq', 'ne': 'Ne'}
+    for c in body.calls:
+        if c.dst['p']: continue
+        if c.item in names and names[c.item] in ops and len(c.args) == 2 and re.search(r'^<&?f64 as std::cmp::Partial(Ord|Eq)(<&?f64>)?>::|impl std::cmp::Partial(Ord|Eq) for f64>::', c.name):
+            yield c.bb, {'rv': {'op': names[c.item], 'ops': [c.args[0], c.args[1]]}, 'dst': {'l': c.dst['l'], 'p': []}}
+        elif c.item == 'is_zero' and 'Eq' in ops and len(c.args) == 1 and re.search(r'^<f64 as num(_traits)?::(identities::)?Zero>::is_zero$', c.name):
+            yield c.bb, {'rv': {'op': 'Eq', 'ops': [c.args[0], {'k': 'const', 'ty': 'f64', 'v': '0f64'}]}, 'dst': {'l': c.dst['l'], 'p': []}}
+
+
 def is_conversion(c, src, dst):
     """`Dst::from(x)` | `x.into()` | `From::from(x)` | `Into::<Dst>::into(x)`: the blanket `Into` is `From`"""
     return re.search(r'From<%s> for %s>::from$' % (re.escape(src), re.escape(dst)), c.name) is not None or \
@@ -403,29 +455,34 @@ def width_tests(ctx, body):
     anything read from `self` contain the whole encoding.)
     returns (nonneg tests, [(bb of the test, arm entered when w == 0)])"""
     nonneg = []; zero_arms = []
-    for bi, st in float_cmp_sites(body, ('Ge', 'Lt', 'Gt', 'Le', 'Eq')):
+    for bi, st in f64_compares(body, ('Ge', 'Lt', 'Gt', 'Le', 'Eq', 'Ne')):
         op = st['rv']['op']; a, b = st['rv']['ops']
         za, zb = is_zero(body, a), is_zero(body, b)
         want = None
         if za != zb:
             w = b if za else a
             if not is_width(body, w): continue
-            if op == 'Eq':
-                # `w == 0.0` / `0.0 == w`
+            if op in ('Eq', 'Ne'):
+                # `w == 0.0` / `0.0 == w` (true side), `w != 0.0` (false side)
                 for sb, neg in T.bool_flow(body, st['dst']['l']):
-                    zero_arms.append((sb, T.switch_sides(body, sb, neg)[0]))
+                    zero_arms.append((sb, T.switch_sides(body, sb, neg)[0 if op == 'Eq' else 1]))
                 continue
             # `w >= 0` true | `0 <= w` true | `w < 0` false | `0 > w` false
             #  `w > 0` true | `0 < w` true | `w <= 0` false | `0 >= w` false  (w == 0 must then have been dealt with before: C12.single)
             want = {('Ge', False): True, ('Le', True): True, ('Lt', False): False, ('Gt', True): False,
                     ('Gt', False): True, ('Lt', True): True, ('Le', False): False, ('Ge', True): False}.get((op, za))
-        elif not za and a['k'] != 'const' and b['k'] != 'const' and op != 'Eq':
-            # `floor(upper) >= ceil(lower)` and its mirror images
+        elif not za and a['k'] != 'const' and b['k'] != 'const':
+            # `floor(upper) >= ceil(lower)` and its mirror images; `floor(upper) == ceil(lower)` is `w == 0`
             ea, eb = xexpr(body, a), xexpr(body, b)
+            if op in ('Eq', 'Ne'):
+                if (is_rounded(ea, 'floor', 'upper') and is_rounded(eb, 'ceil', 'lower')) or (is_rounded(ea, 'ceil', 'lower') and is_rounded(eb, 'floor', 'upper')):
+                    for sb, neg in T.bool_flow(body, st['dst']['l']):
+                        zero_arms.append((sb, T.switch_sides(body, sb, neg)[0 if op == 'Eq' else 1]))
+                continue
             if is_rounded(ea, 'floor', 'upper') and is_rounded(eb, 'ceil', 'lower'): want = {'Ge': True, 'Lt': False}.get(op)
             elif is_rounded(ea, 'ceil', 'lower') and is_rounded(eb, 'floor', 'upper'): want = {'Le': True, 'Gt': False}.get(op)
         if want is not None:
-            nonneg += bool_tests(body, st['dst']['l'], want, 'floor(upper) - ceil(lower) >= 0')
+            nonneg += bool_tests(body, st['dst']['l'], want, 'floor(upper) - ceil(lower) >= 0', want)
     # `match w.partial_cmp(&0.0) { Some(Greater) => .., Some(Equal) => .., Some(Less) | None => error }`
     for c in body.calls:
         if c.item != 'partial_cmp' or 'f64' not in c.name or len(c.args) != 2: continue
@@ -455,6 +512,7 @@ def width_tests(ctx, body):
                         # two switches decide: none_t leaves the outer one, arms[neg] the inner one
                         nonneg.append(Test(b3, [arms[0]] + other, [none_t, arms[neg_discr]], 'partial_cmp(w, 0) is Equal or Greater', fail_edges=[(b3, none_t), (b5, arms[neg_discr])],
                                            pass_edges=[(b5, x) for x in [arms[0]] + other]))
+                        nonneg[-1].rejects_nan = True
                         zero_arms.append((b5, arms[0]))
     return nonneg, zero_arms
 
@@ -514,7 +572,7 @@ def is_bit_count(body, e):
 
 def bit_range(body, lo, floops, depth=3):
     """the `0..n` a loop (transitively, through a vector filled once per iteration of another loop) counts over"""
-    r = root_of(body, lo[0].args[0], SEQ_TRANSPARENT)[0]
+    r = root_of(body, lo[0].args[0], RANGE_TRANSPARENT)[0]
     a = agg_def(body, r, 'ops::Range') if r is not None else None
     if a is not None or depth == 0: return a
     leaves = seq_sources(body, lo[0].args[0])
@@ -643,6 +701,25 @@ def check_coefficients(ctx, R, body, fn, floops, new_call):
         ctx.check(okv, R + '.coef/values', 'T-BRANCHFX', fn, 'coefficients are not 2^i in the loop (found %s) and w - 2^i + 1 in the peeled last bit (found %s)' % (sorted(kinds), sorted(pk)), body.site(c.bb))
         ctx.check(okv, R + '.coef/last-is-capped', 'T-BRANCHFX', fn, 'the peeled bit is not position n - 1 with the capped coefficient', body.site(psites[0][0].bb))
         return
+    if set(kinds) == {'power'}:
+        # every bit gets 2^i in the loop; afterwards the *last element* of the vector is overwritten in place with
+        # w - (what is stored there) + 1:  `if let Some((_, c)) = terms.last_mut() { *c = w - *c + 1.0 }`
+        LAST_T = re.compile(r'::(last_mut|deref_mut|as_mut_slice|as_mut)(::<.*>)?$')
+        fix = []
+        for bi, st in body.stmts():
+            d_ = st['dst']
+            if not d_['p'] or d_['p'][0] != '*' or any(bi in l_[4] for l_ in floops) or not body.dominates(lo[3], bi): continue
+            r_, fs_, crossed_ = root_of(body, {'k': 'copy', 'pl': {'l': d_['l'], 'p': []}}, LAST_T)
+            if r_ != tv or not any(re.search(r'::last_mut$', T.strip_generics_tail(x_)) for x_ in crossed_) or [f_ for a_, f_ in fs_][-1:] != ['1']: continue
+            terms = linear_terms(def_expr(body, ('stmt', bi, st)), 1, lambda x: tree_is_width(body, x, 0))
+            pos = [t_ for sg, t_ in terms if sg > 0]; neg = [t_ for sg, t_ in terms if sg < 0]
+            old_ok = len(neg) == 1 and any(n_[0] == 'call' and n_[1] == 'last_mut' for n_ in T.expr_walk(neg[0]))
+            fix.append(old_ok and len(pos) == 2 and sorted((tree_is_width(body, t_), const_is(t_, 1.0)) for t_ in pos) == [(False, True), (True, False)])
+        if fix:
+            okf = all(fix) and len(fix) == 1
+            ctx.check(okf, R + '.coef/values', 'T-BRANCHFX', fn, 'the last element is not overwritten with w - (its power of two) + 1 exactly once after the loop', body.site(c.bb))
+            ctx.check(okf, R + '.coef/last-is-capped', 'T-BRANCHFX', fn, 'the element capped after the loop is not the last one', body.site(c.bb))
+            return
     okv = set(kinds) == {'power', 'capped'}
     ctx.check(okv, R + '.coef/values', 'T-BRANCHFX', fn, 'coefficient is not 2^i / w - 2^i + 1 (found %s)' % sorted(kinds), body.site(c.bb))
     if not okv: return
@@ -735,6 +812,8 @@ def check(ctx):
     # ("At least one decision variable here"), so none of them may be reachable before the lookup has succeeded
     def may_panic(c):
         if re.search(r'(Option|Result)::<.*>::(unwrap|expect)$', c.name): return c.item
+        # an explicit `panic!` / `unreachable!` / `assert!` failure branch (`match x { None => panic!(..) }`)
+        if c.target < 0 and re.search(r'panicking::(panic|panic_fmt|panic_display|panic_explicit|assert_failed|unreachable_display)|begin_panic', c.name): return 'panic!'
         # a closure with overflow-checked arithmetic handed to a combinator: `.map(|id| id + 1)`
         for a_ in c.args:
             if a_['k'] in ('copy', 'move') and not a_['pl']['p']:
@@ -819,16 +898,33 @@ def check(ctx):
     nonneg, zero_arms = width_tests(ctx, body)
     zero_edges = set(zero_arms)
     # ---- guard 4: finiteness of both ends
-    finite_tests = {}
+    finite_tests = {}; finite_good = {}
     for side in ('lower', 'upper'):
         ts = []
         is_end = lambda o: (lambda fs: (BOUND, side) in fs and (DV, 'bound') in fs)(xpath(body, o))
         for c in body.calls:
             # idioms that keep +-inf out (a NaN end is rejected by the empty-range guard: NaN >= 0 is false)
             if 'f64' not in c.name or not c.args or not is_end(c.args[0]): continue
-            if c.item == 'is_finite': ts += bool_tests(body, c.dst['l'], True, 'bound.%s.is_finite()' % side)            # x.is_finite()
-            elif c.item == 'is_infinite': ts += bool_tests(body, c.dst['l'], False, '!bound.%s.is_infinite()' % side)    # !x.is_infinite()
-        for bi_, st_ in float_cmp_sites(body, ('Lt', 'Gt')):
+            if c.item == 'is_finite': ts += bool_tests(body, c.dst['l'], True, 'bound.%s.is_finite()' % side, True)            # x.is_finite()
+            elif c.item == 'is_infinite': ts += bool_tests(body, c.dst['l'], False, '!bound.%s.is_infinite()' % side, False)    # !x.is_infinite(): NaN passes
+        for c in body.calls:
+            # `[a, b].into_iter().all(f64::is_finite)` | `.iter().copied().all(..)` | `!.. .any(f64::is_infinite)`: the predicate holds for /
+            # for none of the listed values (a closure instead of the path is opened by the normal form into a loop)
+            if c.item not in ('all', 'any') or not (c.trait or '').endswith('Iterator') or len(c.args) != 2 or c.args[1]['k'] != 'const': continue
+            pred = (c.args[1].get('fnp') or c.args[1].get('v') or '').split('::')[-1]
+            want = {('all', 'is_finite'): True, ('any', 'is_infinite'): False}.get((c.item, pred))
+            if want is None: continue
+            seq_t = re.compile(r'::(into_iter|iter|copied|cloned|by_ref)(::<.*>)?$')
+            lst = root_of(body, c.args[0], seq_t)[0]
+            d_ = _whole_defs(body, lst) if lst is not None else []
+            for _ in range(3):
+                # `&[a, b]` coerced to a slice (`.iter()` on an array)
+                if len(d_) == 1 and d_[0][0] == 'stmt' and d_[0][2]['rv']['k'] == 'cast' and d_[0][2]['rv']['to'].startswith('&'):
+                    lst = root_of(body, d_[0][2]['rv']['ops'][0], seq_t)[0]; d_ = _whole_defs(body, lst) if lst is not None else []
+                else: break
+            if len(d_) == 1 and d_[0][0] == 'stmt' and d_[0][2]['rv']['k'] == 'agg' and d_[0][2]['rv']['adt'] == 'array' and any(is_end(o_) for o_ in d_[0][2]['rv']['ops']):
+                ts += bool_tests(body, c.dst['l'], want, '[..bound.%s..].%s(%s)' % (side, c.item, pred), want)
+        for bi_, st_ in f64_compares(body, ('Lt', 'Gt')):
             # x.abs() < f64::INFINITY  |  f64::INFINITY > x.abs()
             a_, b_ = st_['rv']['ops']
             small, big = (a_, b_) if st_['rv']['op'] == 'Lt' else (b_, a_)
@@ -837,13 +933,19 @@ def check(ctx):
             d_ = _whole_defs(body, root_of(body, small)[0])
             ac = _callmap(body).get(d_[0][1]) if len(d_) == 1 and d_[0][0] == 'call' else None
             if ac is not None and ac.item == 'abs' and 'f64' in ac.name and is_end(ac.args[0]):
-                ts += bool_tests(body, st_['dst']['l'], True, 'bound.%s.abs() < INFINITY' % side)
+                ts += bool_tests(body, st_['dst']['l'], True, 'bound.%s.abs() < INFINITY' % side, True)
         finite_tests[side] = ts
-        decide(R + '.guards/finite/' + side, ts, 'no `bound.%s.is_finite()` test guarding the encoding loop (an infinite bound makes the bit count unbounded)' % side,
+        finite_good[side] = decide(R + '.guards/finite/' + side, ts, 'no `bound.%s.is_finite()` test guarding the encoding loop (an infinite bound makes the bit count unbounded)' % side,
                '`bound.%s.is_finite()` does not keep a non-finite bound away from the encoding loop' % side, implied_by=zero_edges)
     # ---- guard 5: the range contains an integer
-    decide(R + '.guards/empty-range', nonneg, 'no `floor(upper) - ceil(lower) >= 0` test guarding the loop',
+    range_good = decide(R + '.guards/empty-range', nonneg, 'no `floor(upper) - ceil(lower) >= 0` test guarding the loop',
            'the `floor(upper) - ceil(lower) >= 0` test does not keep an empty range away from the encoding', implied_by=zero_edges)
+    # NaN: a NaN end is neither infinite nor `< 0`-comparable.  It must be sent to an error by some protecting guard: by the
+    # finiteness tests of both ends in a NaN-rejecting spelling (is_finite, abs() < INFINITY), or by the range test in one
+    # (a comparison that has to be *true*, partial_cmp with None as error).  `!is_infinite()` + `if w < 0 { bail }` lets NaN through.
+    strict = lambda ts_: any(getattr(t_, 'rejects_nan', None) for t_ in ts_)
+    ctx.check((strict(finite_good.get('lower', [])) and strict(finite_good.get('upper', []))) or strict(range_good), R + '.guards/nan', 'T-GUARD', fn,
+              'a NaN bound passes every guard: the finiteness tests do not reject NaN (is_infinite) and the range test lets an unordered comparison through (required false)', body.site())
     # floor on upper, ceil on lower (not swapped)
     for c in body.calls:
         if c.item in ('floor', 'ceil') and 'f64' in c.name and c.bb not in blocks:
@@ -921,6 +1023,16 @@ def check(ctx):
         #  anything read from `self` contains the loop)
         ide = xexpr(body, idop)
         ss = construction_carry(ctx, R + '.vars/subscripts', a, 'subscripts', need_params=[2])
+        # tagged with the *encoded variable*: the first subscript is the id that was passed in (not the position where the
+        # variable was found, not the id base).  Precise on the list literal the subscripts are made of (`vec![a, b]`,
+        # `Vec::from([a, b])`, `[a, b].to_vec()`), because slices in this function are polluted by the mutation of `self`.
+        if ss is not None:
+            lits = [st2 for b2, st2 in body.stmts() if st2['rv']['k'] == 'agg' and st2['rv']['adt'] == 'array' and len(st2['rv']['ops']) == 2
+                    and st2['dst']['l'] in ss.locals and (inner(b2) is inner(bi))]
+            firsts = [strip_casts(xexpr(body, st2['rv']['ops'][0])) for st2 in lits]
+            ctx.check(bool(firsts) and all(e_[0] == 'place' and e_[1] == 2 and not e_[2] for e_ in firsts), R + '.vars/subscripts-first-is-id', 'T-CARRY', fn,
+                      'the first subscript of the new variable is not the id of the encoded variable (the argument)%s' %
+                      ('' if firsts else ': no two-element list literal found'), body.site(bi), first=[T.expr_str(e_) for e_ in firsts])
         if not is_peeled:
             if loop_ide is None: loop_ide = ide
             ctx.check(any(x[0] == 'call' and len(x) > 4 and x[4] == nextc.bb for x in T.expr_walk(ide)), R + '.vars/id-per-bit', 'T-CARRY', fn,
@@ -975,5 +1087,5 @@ def check(ctx):
     # the loop starts at bit 0
     rng = [st for bi, st in body.stmts() if st['rv']['k'] == 'agg' and st['rv']['adt'].endswith('ops::Range') and st['dst']['l'] in si.locals]
     ctx.check(len(rng) >= 1 and all(r['rv']['ops'][0].get('v') == '0_usize' for r in rng), R + '.loop/from-bit-0', 'T-CONST', fn, 'bit loop does not start at 0', body.site())
-    ctx.floor('C12.guards', 9); ctx.floor('C12.vars', 8); ctx.floor('C12.cast', 1); ctx.floor('C12.single', 2); ctx.floor('C12.atomic', 2)
+    ctx.floor('C12.guards', 9); ctx.floor('C12.vars', 9); ctx.floor('C12.cast', 1); ctx.floor('C12.single', 2); ctx.floor('C12.atomic', 2)
     ctx.floor('C12.loop', 5); ctx.floor('C12.round', 2); ctx.floor('C12.result', 1); ctx.floor('C12.bits', 1); ctx.floor('C12.coef', 2)
